@@ -1066,6 +1066,10 @@ def rule_profile_diff(prop, ctx_repo_dev, repo_rel, ls_factory):
             continue
         cv = ls_factory(repo)
         sp, kinds = cv.shape(b)
+        if b.rec.get("requires_mono") and bytes_discharge(repo, ls_factory, lscache, b, bb, callers, panic_site=True):
+            # a const-generic byte helper: decided inside every byte-level function that reaches it (its parameter is fixed there)
+            R.ok(sample={"site": loc_of(b, bb), "fn": p, "never_fires": "no abstract input of any byte-level caller ends in the panic"})
+            continue
         if sp is not None or any(k.startswith("array") for k in kinds):
             ex = cv.explore(b)
             wit = [(k, o) for k, o in ex.items() if any(pn[1] and pn[1][0] == p and pn[1][1] == bb for pn in o.panics)]
